@@ -2004,10 +2004,10 @@ def mnemo_from_att(prefix, name, args, asm_format):
     raise ValueError("Mnemonic %r unknown"%name)
 
 def mnemo_to_att(name, args, asm_format):
-    if name == 'movsd' and args[0][x86_afs.size] != 'xmm' \
-                       and args[1][x86_afs.size] != 'xmm':
+    if name in ['movsd', 'cmpsd'] and args[0][x86_afs.size] != 'xmm' \
+                                  and args[1][x86_afs.size] != 'xmm':
         # Special case: string instruction
-        return 'movsl'
+        return name[:4]+'l'
     if name in mnemo_float_optional_suffix and not args[0][x86_afs.ad]:
         if name[:4] in ['fsub', 'fdiv']:
             return att_bug_fsub_fdiv(name, args, asm_format)
